@@ -41,12 +41,17 @@ type c03Exch struct {
 type c03Spy struct {
 	mu   sync.Mutex
 	last [4]time.Time
+	all  [][4]time.Time
 	n    int
 }
 
 func (f *c03Spy) Do(t0, t1, t2, t3 time.Time) time.Duration {
 	f.mu.Lock()
 	f.last = [4]time.Time{t0, t1, t2, t3}
+	f.all = append(f.all, f.last)
+	if len(f.all) > 64 {
+		f.all = f.all[len(f.all)-64:]
+	}
 	f.n++
 	f.mu.Unlock()
 	return (t1.Sub(t0) + t2.Sub(t3)) / 2
@@ -334,10 +339,14 @@ func init() {
 							continue
 						}
 						// which evaluated response produced the result?
+						// (a measurement goroutine of an earlier, timed-out SCION call may still log after that call
+						// returned: the record of this call is the one that carries the returned offset)
 						var evRec map[string]any
 						for _, rc := range recs {
 							if rc["msg"] == "evaluated response" {
-								evRec = rc
+								if o, _ := rc["clock offset"].(time.Duration); o == off || evRec == nil {
+									evRec = rc
+								}
 							}
 						}
 						if evRec == nil {
@@ -354,6 +363,11 @@ func init() {
 						}
 						spy.mu.Lock()
 						ts := spy.last
+						for _, cand := range spy.all { // the filter call whose result is the returned offset
+							if (cand[1].Sub(cand[0])+cand[2].Sub(cand[3]))/2 == off {
+								ts = cand
+							}
+						}
 						spyN := spy.n
 						spy.mu.Unlock()
 						var j *c03Exch
